@@ -146,15 +146,14 @@ func IterateConsensusStateAscending(clientStore sdk.KVStore,
 	defer iterator.Close()
 
 	for ; iterator.Valid(); iterator.Next() {
-		key := iterator.Key()
-		keySplit := strings.Split(string(key), "/")
-		// processed time key in prefix store has format: "consensusStates/<height>"
-		if len(keySplit) != 2 || len(keySplit[1]) != 16 {
-			// ignore all not consensus state keys (a consensus state key ends in 8+8 big-endian height bytes)
+		// consensus state key in prefix store has format: "consensusStates/<height>",
+		// where <height> is 16 binary bytes that may contain '/'
+		revisionNumber, revisionHeight, ok := host.ParseConsensusStateKey(iterator.Key())
+		if !ok {
+			// ignore all not consensus state keys
 			continue
 		}
-		height := GetHeightFromIterationKey(key)
-		if cb(height) {
+		if cb(clienttypes.NewHeight(revisionNumber, revisionHeight)) {
 			return
 		}
 	}
